@@ -96,6 +96,8 @@ Definition classify (max : Z) (last : bool) (i : sitem) : verdict :=
       else VOver (frame_size f - blen (body f))
     else VSilent
   | SRaw bs =>
+    (* RFC 7252 3 / RFC 8323 3.2: token lengths 9-15 are a message format error *)
+    if match bs with b0 :: _ => 8 <? b0 mod 16 | [] => false end then VSilent else
     match declared bs with
     | None => if last then VPartial else VSilent
     | Some (h, total) =>
